@@ -411,6 +411,8 @@ export class SchemaPrintingContext {
   private readonly collectedDefinitions: Record<string, JSONSchema7Definition>;
   private readonly inProgressDefinitions: Record<string, boolean>;
   private readonly namedTypeSchemaOverrides: Record<string, Runtype>;
+  // generated definition names (variants of discriminated unions) and the hash256 of the type each was given to
+  private readonly generatedNameOwners: Record<string, string> = {};
 
   constructor(options: SchemaPrintingContextOptions) {
     this.refPathTemplate = options.refPathTemplate;
@@ -441,6 +443,19 @@ export class SchemaPrintingContext {
 
   isDefinitionInProgress(name: string): boolean {
     return this.inProgressDefinitions[name] === true;
+  }
+
+  // a generated name is taken when it names a user type or was generated for a different type (the 32-bit hash in the
+  // name collides for some unions)
+  isNameOfAnotherDefinition(name: string, digest: string): boolean {
+    if (Object.prototype.hasOwnProperty.call(this.generatedNameOwners, name)) {
+      return this.generatedNameOwners[name] !== digest;
+    }
+    return this.hasDefinition(name) || this.isDefinitionInProgress(name);
+  }
+
+  claimGeneratedName(name: string, digest: string): void {
+    this.generatedNameOwners[name] = digest;
   }
 
   getNamedTypeSchemaOverride(name: string): Runtype | undefined {
@@ -1973,11 +1988,19 @@ export class AnyOfDiscriminatedRuntype extends BaseRuntype {
 
     const baseName = AnyOfDiscriminatedRuntype.getSyntheticRefName(this.discriminator, key, unionHash);
     // "a-b" and "a_b" sanitize to the same name part: different variants get different names
+    const digestCtx: Hash256Context = { writer: new Hash256Writer(), active: new Map(), nextCycleId: 0 };
+    runtype.hash256(digestCtx);
+    const digest = digestCtx.writer.digestHex();
     let syntheticRefName = baseName;
-    for (let n = 2; syntheticNames.has(syntheticRefName); n++) {
+    for (
+      let n = 2;
+      syntheticNames.has(syntheticRefName) || printingContext.isNameOfAnotherDefinition(syntheticRefName, digest);
+      n++
+    ) {
       syntheticRefName = `${baseName}_${n}`;
     }
     syntheticNames.add(syntheticRefName);
+    printingContext.claimGeneratedName(syntheticRefName, digest);
     this.ensureContextualDefinition(syntheticRefName, runtype, ctx);
     return printingContext.getRef(syntheticRefName);
   }
